@@ -24,7 +24,7 @@ import (
 
 func TestMain(m *testing.M) { harness.Main(m) }
 
-const rule = "C09: (i) chains made only of condition-free calls - Where/Not/Or with \"\", map{}, &T{}, []int{} or an empty grouped builder; Order, Limit, Scopes(identity), Unscoped, Select, Omit, Table, Model(&T{}), Session{}, Clauses(Returning{} / Returning{columns} / Locking / OrderBy / Limit) - ending in Update, Updates(map/struct), UpdateColumn, UpdateColumns(map/struct), Delete(&T{}), Delete(&T{}, empty inline), Delete of a zero-key / empty slice, for a plain model and five soft-delete models (one gorm.DeletedAt; two DeletedAt fields, the second with a custom column; one field with its own field/column name; DeletedAt inside an anonymous embedded struct; DeletedAt plus a prefixed embedded one) and four models with an application-assigned integer key (autoIncrement:false; composite integer key; each plain and soft-delete) whose table holds a row with key 0, with SkipDefaultTransaction off / config / session (enumerated one call shorter, random beyond) and with AllowGlobalUpdate off / on in the config / on in a session: enumerated exhaustively to the stated length (model variants one call shorter) and drawn at random up to length 7; plus the used-chain-value shape q := db.Model(&T{}).<calls>; q.<Updates(map{}) | Updates(T{}) | Raw.Scan | Count | Find>; q.<nothing | Session{} | WithContext | Session{AllowGlobalUpdate:false} | Session{SkipHooks}>.<calls>.<finisher> (enumerated with one call before/after, random beyond), AllowGlobalUpdate off; off: the error is ErrMissingWhereClause, the recording driver saw no prepare/exec/query/commit, the table is unchanged; on: no error and every visible row is affected. (ii) chains mixing such calls with at least one effective condition drawn from the C02 units (also ones matching nothing, e.g. IN (NULL)), a keyed model value or keyed slice element: the error is never ErrMissingWhereClause (nor any other). non-trivial = at least two condition-free calls one of which is an empty condition form; distinct = model + AllowGlobalUpdate mode + chain + finisher"
+const rule = "C09: (i) chains made only of condition-free calls - Where/Not/Or with \"\", map{}, &T{}, []int{} or an empty grouped builder; Order, Limit, Scopes(identity), Unscoped, Select, Omit, Table, Model(&T{}), Session{}, Clauses(Returning{} / Returning{columns} / Locking / OrderBy / Limit) - ending in Update, Updates(map/struct), UpdateColumn, UpdateColumns(map/struct), Delete(&T{}), Delete(&T{}, empty inline), Delete of a zero-key / empty slice, and Updates / UpdateColumns whose VALUE is a struct with a primary key while the model value has none (AllowGlobalUpdate off only), for a plain model and five soft-delete models (one gorm.DeletedAt; two DeletedAt fields, the second with a custom column; one field with its own field/column name; DeletedAt inside an anonymous embedded struct; DeletedAt plus a prefixed embedded one) and four models with an application-assigned integer key (autoIncrement:false; composite integer key; each plain and soft-delete) whose table holds a row with key 0, with SkipDefaultTransaction off / config / session (enumerated one call shorter, random beyond) and with AllowGlobalUpdate off / on in the config / on in a session: enumerated exhaustively to the stated length (model variants one call shorter) and drawn at random up to length 7; plus the used-chain-value shape q := db.Model(&T{}).<calls>; q.<Updates(map{}) | Updates(T{}) | Raw.Scan | Count | Find>; q.<nothing | Session{} | WithContext | Session{AllowGlobalUpdate:false} | Session{SkipHooks}>.<calls>.<finisher> (enumerated with one call before/after, random beyond), AllowGlobalUpdate off; off: the error is ErrMissingWhereClause, the recording driver saw no prepare/exec/query/commit, the table is unchanged; on: no error and every visible row is affected. Chains containing an expression-less WHERE clause (Clauses(clause.Where{}) / Clauses(clause.And())) are only required to return an error, commit nothing and change no row (the unchanged tree sends `... WHERE ` and gets a syntax error). (ii) chains mixing such calls with at least one effective condition drawn from the C02 units (also ones matching nothing, e.g. IN (NULL)), a keyed model value or keyed slice element: the error is never ErrMissingWhereClause (nor any other). non-trivial = at least two condition-free calls one of which is an empty condition form; distinct = model + AllowGlobalUpdate mode + chain + finisher"
 
 // ---- models -----------------------------------------------------------------------------------------
 
@@ -205,6 +205,16 @@ func (m modelKind) Marked() interface{} { // T{Mark: 7}
 	return p.Elem().Interface()
 }
 
+func (m modelKind) MarkedKeyed(id int, ptr bool) interface{} { // T{ID: id, Mark: 7} or its address
+	p := reflect.New(m.Type)
+	p.Elem().FieldByName("ID").SetInt(int64(id))
+	p.Elem().FieldByName("Mark").SetInt(7)
+	if ptr {
+		return p.Interface()
+	}
+	return p.Elem().Interface()
+}
+
 func (m modelKind) EmptySlicePtr() interface{} {
 	return reflect.New(reflect.SliceOf(m.Type)).Interface()
 }
@@ -330,20 +340,39 @@ var alphabet = func() []freeCall {
 	return a
 }()
 
+// weakCalls put an expression-less WHERE clause on the statement. The property
+// does not list them among the empty condition forms and the unchanged tree
+// answers with the database's syntax error (`... WHERE ` is sent and refused)
+// instead of ErrMissingWhereClause, so for chains containing one only this is
+// asserted: an error is returned, nothing is committed, no row changes.
+var weakCalls = []freeCall{
+	{Name: `Clauses(Where{})`, Apply: func(db, _ *gorm.DB, _ modelKind) *gorm.DB { return db.Clauses(clause.Where{}) }},
+	{Name: `Clauses(And())`, Apply: func(db, _ *gorm.DB, _ modelKind) *gorm.DB { return db.Clauses(clause.And()) }},
+}
+
+// allCalls = alphabet + weakCalls (lookup only; the enumeration runs over alphabet)
+var allCalls = append(append([]freeCall{}, alphabet...), weakCalls...)
+
 var alphaIndex = func() map[string]int {
 	m := map[string]int{}
-	for i, a := range alphabet {
+	for i, a := range allCalls {
 		m[a.Name] = i
 	}
 	return m
 }()
+
+func isWeak(name string) bool { return alphaIndex[name] >= len(alphabet) }
 
 // ---- finishers ---------------------------------------------------------------------------------------
 
 type finisher struct {
 	Name   string
 	Delete bool
-	Run    func(db *gorm.DB, m modelKind, key int) *gorm.DB // key: primary key of the model value (0 = none)
+	// OffOnly: only with AllowGlobalUpdate off and not in the effective-condition
+	// part (the update value carries a primary key: executed globally or next to
+	// another key it would collide with the table's key constraint)
+	OffOnly bool
+	Run     func(db *gorm.DB, m modelKind, key int) *gorm.DB // key: primary key of the model value (0 = none)
 }
 
 var finishers = []finisher{
@@ -357,6 +386,16 @@ var finishers = []finisher{
 		return db.Model(m.Keyed(k)).UpdateColumns(map[string]interface{}{"mark": 7})
 	}},
 	{Name: `UpdateColumns(T{Mark:7})`, Run: func(db *gorm.DB, m modelKind, k int) *gorm.DB { return db.Model(m.Keyed(k)).UpdateColumns(m.Marked()) }},
+	// the update VALUE has a primary key; it is an assignment, not a condition
+	{Name: `Updates(T{ID:2,Mark:7})`, OffOnly: true, Run: func(db *gorm.DB, m modelKind, k int) *gorm.DB {
+		return db.Model(m.Keyed(k)).Updates(m.MarkedKeyed(2, false))
+	}},
+	{Name: `Updates(&T{ID:2,Mark:7})`, OffOnly: true, Run: func(db *gorm.DB, m modelKind, k int) *gorm.DB {
+		return db.Model(m.Keyed(k)).Updates(m.MarkedKeyed(2, true))
+	}},
+	{Name: `UpdateColumns(T{ID:2,Mark:7})`, OffOnly: true, Run: func(db *gorm.DB, m modelKind, k int) *gorm.DB {
+		return db.Model(m.Keyed(k)).UpdateColumns(m.MarkedKeyed(2, false))
+	}},
 	{Name: `Delete(&T{})`, Delete: true, Run: func(db *gorm.DB, m modelKind, k int) *gorm.DB { return db.Delete(m.Keyed(k)) }},
 	{Name: `Delete(&T{},"")`, Delete: true, Run: func(db *gorm.DB, m modelKind, k int) *gorm.DB { return db.Delete(m.Keyed(k), "") }},
 	{Name: `Delete(&T{},map{})`, Delete: true, Run: func(db *gorm.DB, m modelKind, k int) *gorm.DB {
@@ -530,7 +569,7 @@ func checkFree(c Case) (string, error) {
 			if !ok {
 				return "", fmt.Errorf("unknown call %q", name)
 			}
-			q = alphabet[i].Apply(q, d.DB, m)
+			q = allCalls[i].Apply(q, d.DB, m)
 			if name == "Unscoped()" {
 				unscoped = true
 			}
@@ -561,7 +600,7 @@ func checkFree(c Case) (string, error) {
 		if !ok {
 			return "", fmt.Errorf("unknown call %q", name)
 		}
-		tx = alphabet[i].Apply(tx, d.DB, m)
+		tx = allCalls[i].Apply(tx, d.DB, m)
 		if name == "Unscoped()" {
 			unscoped = true
 		}
@@ -577,6 +616,27 @@ func checkFree(c Case) (string, error) {
 	after, err := m.Spec.Dump(d.SQL)
 	if err != nil {
 		return "", err
+	}
+	weak := false
+	for _, name := range append(append([]string{}, c.Pre...), c.Calls...) {
+		weak = weak || isWeak(name)
+	}
+	if weak {
+		if res.Error == nil {
+			return fmt.Sprintf("no error although the chain has no condition; driver saw: %s; table after: %s", events, dumpString(after)), nil
+		}
+		for _, e := range d.Rec.Events() {
+			if e.Kind == recdrv.Commit {
+				return "a statement without condition was committed: " + events, nil
+			}
+		}
+		if open != 0 {
+			return fmt.Sprintf("%d transaction(s) left open", open), nil
+		}
+		if dumpString(before) != dumpString(after) {
+			return fmt.Sprintf("table changed: %s, was %s", dumpString(after), dumpString(before)), nil
+		}
+		return "", nil
 	}
 	if c.AGU == "off" {
 		if !errors.Is(res.Error, gorm.ErrMissingWhereClause) {
@@ -647,7 +707,7 @@ func freeNontrivial(c Case) bool {
 	empty := false
 	all := append(append([]string{}, c.Pre...), c.Calls...)
 	for _, n := range all {
-		if alphabet[alphaIndex[n]].EmptyCond {
+		if allCalls[alphaIndex[n]].EmptyCond {
 			empty = true
 		}
 	}
@@ -658,6 +718,12 @@ func freeClasses(c Case) []string {
 	cl := []string{"part:condition-free", "model:" + c.Model, "agu:" + c.AGU, "fin:" + c.Fin, fmt.Sprintf("len:%d", len(c.Calls))}
 	if c.SDT != "" {
 		cl = append(cl, "skip-default-transaction:"+c.SDT)
+	}
+	for _, n := range append(append([]string{}, c.Pre...), c.Calls...) {
+		if isWeak(n) {
+			cl = append(cl, "oracle:error-and-unchanged-only")
+			break
+		}
 	}
 	if c.Prime != "" {
 		cl = append(cl, "shape:used-chain-value", "prime:"+c.Prime, "derive:"+c.Derive)
@@ -711,6 +777,9 @@ func TestC09Exhaustive(t *testing.T) {
 					continue
 				}
 				for _, f := range finishers {
+					if f.OffOnly && agu != "off" {
+						continue
+					}
 					n++
 					if n%shards != shard {
 						continue
@@ -785,7 +854,45 @@ func TestC09Exhaustive(t *testing.T) {
 		}
 	}
 	sdtRec(nil)
-	pres := []string{"", `Unscoped()`}
+	// expression-less WHERE clauses (weakCalls): alone and next to one other call
+	partners := []string{`Where("")`, `Not(map{})`, `Or(&T{})`, `Unscoped()`, `Model(&T{})`, `Session{}`, `Clauses(Returning{})`, `Table(t)`}
+	if maxLen >= 3 {
+		partners = partners[:0]
+		for _, a := range alphabet {
+			partners = append(partners, a.Name)
+		}
+	}
+	var weakChains [][]string
+	for _, wc := range weakCalls {
+		weakChains = append(weakChains, []string{wc.Name})
+		for _, pn := range partners {
+			weakChains = append(weakChains, []string{wc.Name, pn}, []string{pn, wc.Name})
+		}
+	}
+	for _, mn := range modelNames {
+		for _, chain := range weakChains {
+			for _, f := range finishers {
+				n++
+				if n%shards != shard {
+					continue
+				}
+				c := Case{Model: mn, AGU: "off", Calls: chain, Fin: f.Name}
+				reportFree(c)
+				msg, err := checkFree(c)
+				if err != nil {
+					t.Fatalf("harness: %v, case: %s", err, c)
+				}
+				if msg != "" {
+					failed++
+					if failed <= 5 {
+						harness.SaveCase("TestC09Exhaustive", c)
+						t.Errorf("C09 violated: %s, case: %s", msg, c)
+					}
+				}
+			}
+		}
+	}
+	pres := []string{""}
 	if maxLen >= 3 {
 		pres = []string{"", `Where("")`, `Unscoped()`, `Or(map{})`}
 	}
@@ -841,6 +948,9 @@ func TestC09Random(t *testing.T) {
 		for k := 3 + x.N(5); k > 0; k-- {
 			c.Calls = append(c.Calls, alphabet[x.N(len(alphabet))].Name)
 		}
+		if finishers[finIndex[c.Fin]].OffOnly {
+			c.AGU = "off"
+		}
 		if x.Pct(30) {
 			c.SDT = sdtModes[1+x.N(2)]
 		}
@@ -858,6 +968,12 @@ func TestC09Random(t *testing.T) {
 					c.Prime = `Updates(map{})`
 				}
 			}
+		}
+		if x.Pct(15) {
+			// an expression-less WHERE clause somewhere in the chain (behind the preparing operation, which it would make fail)
+			c.AGU = "off"
+			k := x.N(len(c.Calls) + 1)
+			c.Calls = append(c.Calls[:k:k], append([]string{weakCalls[x.N(len(weakCalls))].Name}, c.Calls[k:]...)...)
 		}
 		reportFree(c)
 		msg, err := checkFree(c)
@@ -951,6 +1067,9 @@ func TestC09Effective(t *testing.T) {
 	rapid.Check(t, func(rt *rapid.T) {
 		x := cond.G(rt)
 		c := effCase{Model: modelNames[x.N(len(modelNames))], Fin: finishers[x.N(len(finishers))].Name}
+		for finishers[finIndex[c.Fin]].OffOnly {
+			c.Fin = finishers[x.N(len(finishers))].Name
+		}
 		if x.Pct(30) {
 			c.SDT = sdtModes[1+x.N(2)]
 		}
